@@ -19,7 +19,7 @@ RULE = ('Formulas of the fragment the explainer supports (no since/until; arithm
         'whose other operands are predicates on separate variables with alternating / complementary sign patterns, so that the temporal operator X '
         'is asked to explain several disjoint intervals; each variable occurs once, the formula is monotone in it, and the 8 assignments '
         '"all non-reported samples of a variable at +1000 / -1000" contain the most adversarial one (sufficiency decided exactly); 8-16 traces of '
-        '3-9 samples per parsed formula, a failure is confirmed on a freshly parsed specification. Lane satisfied: rho(phi,w,0) > 0 => nothing is reported. Lane modular: some sub-formulas are named requirements of their own (referenced once or several times; one text or add_sub_spec), optionally with a requirement nothing refers to; the specification is read as the set of its requirements (violated at 0 if one of them is, which is when explain() reports something). Non-trivial = E does not '
+        '3-9 samples per parsed formula, a failure is confirmed on a freshly parsed specification. Lane since_until: specifications with since / until / unless: explain() refuses them with an RTAMTException, or what it reports is a sufficient cause. Lane satisfied: rho(phi,w,0) > 0 => nothing is reported. Lane modular: some sub-formulas are named requirements of their own (referenced once or several times; one text or add_sub_spec), optionally with a requirement nothing refers to; the specification is read as the set of its requirements (violated at 0 if one of them is, which is when explain() reports something). Non-trivial = E does not '
         'cover every sample of every variable, the formula has >= 1 temporal operator and n >= 2 (two cases in three draw a sampling period of 1 ms .. 2 s and a default unit, bounds then written in ms; some of these objects are first evaluated and explained under a shorter period and re-configured with set_sampling_period()); distinct = distinct (formula, trace) digests.')
 
 ASSUMPTIONS = [
@@ -306,6 +306,10 @@ def check(case, cache=None):
         spec.explain()
     except Exception as e:  # noqa
         o = exc_outcome(e)
+        if o[2] and any(x in ('since', 'until', 'since[]', 'until[]', 'unless[]') for x in F.ops(f)):
+            # explanations of since / until are not implemented: refusing them with an RTAMTException is a clean answer
+            # (an explanation that is returned for them has to be a sufficient cause like any other)
+            return PASS(True, labels + ['explain-refuses-since/until'])
         return FAIL('explain-raises:%s@%s' % (o[1], o[4].split(':')[-1]), desc + '\nexplain() raised %s: %s at %s' % (o[1], o[3], o[4]), labels)
     expl = spec.explainer.explanations
     E, bad = explained_positions(expl, feed, n)
@@ -499,7 +503,28 @@ def modular_candidates(case):
             yield dict(case, subs=case['subs'][:i] + case['subs'][i + 1:])
 
 
+SINCE_UNTIL = Profile(max_depth=4, max_bound=4, temporal_in_arith=False, tbin=('since', 'until', 'unless'))
+
+
+@st.composite
+def since_until_cases(draw, tier):
+    """Specifications with since / until / unless (bounded or not): explain() either refuses them with an RTAMTException or
+    reports a sufficient cause."""
+    c = draw(cases(tier, False))
+    vs = c['vars']
+    g, _ = draw(F.formulas(SINCE_UNTIL.copy(max_depth=3), variables=vs))
+    h, _ = draw(F.formulas(EXPL.copy(max_depth=2), variables=vs))
+    b = draw(st.integers(0, 3))
+    a = draw(st.integers(0, b))
+    top = draw(st.sampled_from([('bin', 'since', g, h), ('bin', 'until', h, g), ('tbin', 'until', a, b, h, g), ('tbin', 'since', a, b, g, h), ('tbin', 'unless', a, b, h, g)]))
+    c['formula'] = top if draw(st.booleans()) else ('bin', draw(st.sampled_from(['and', 'or', 'implies'])), from_json(c['formula']), top)
+    c['timing'] = None
+    c['first_period_ms'] = None
+    return c
+
+
 LANES = [
+    Lane('since_until', since_until_cases, check, 1500, 15000, candidates),
     Lane('modular', modular_cases, check_modular, 2500, 25000, modular_candidates),
     Lane('violated', lambda tier: cases(tier, False), check, 3000, 40000, candidates),
     Lane('satisfied', lambda tier: cases(tier, True), check, 800, 8000, candidates),
